@@ -22,6 +22,9 @@ func init() {
 // boundAn decides, for integer SSA values, whether they are bounded above / below by a function of input sizes.
 type boundAn struct {
 	busy map[bkey]bool
+	// assumeUB/assumeLB: parameters known to be bounded at the call site whose callee is being summarised
+	assumeUB, assumeLB map[*ssa.Parameter]bool
+	depth              int
 	// variadicNonEmpty: the parser builds variadic function nodes only with at least one argument
 	variadicNonEmpty bool
 }
@@ -104,11 +107,21 @@ func (a *boundAn) bounded(v ssa.Value, b *ssa.BasicBlock, extra []condFact, ub b
 	switch v := v.(type) {
 	case *ssa.Const:
 		return !isBigConst(v)
-	case *ssa.Parameter, *ssa.FreeVar:
+	case *ssa.Parameter:
+		if ub {
+			return a.assumeUB[v]
+		}
+		return a.assumeLB[v]
+	case *ssa.FreeVar:
 		return false
 	case *ssa.Call:
 		if n := builtinName(&v.Call); n == "len" || n == "cap" || n == "min" && false {
 			return true
+		}
+		if _, isTuple := v.Type().(*types.Tuple); !isTuple {
+			if ok, decided := a.calleeResultBounded(v, 0, b, ub); decided {
+				return ok
+			}
 		}
 		if builtinName(&v.Call) == "min" {
 			// min(x, y): bounded above if any argument is; bounded below if all are
@@ -149,6 +162,9 @@ func (a *boundAn) bounded(v ssa.Value, b *ssa.BasicBlock, extra []condFact, ub b
 			n := calleeFullName(&c.Call)
 			if strings.HasPrefix(n, "unicode/utf8.Decode") && v.Index == 1 {
 				return true
+			}
+			if ok, decided := a.calleeResultBounded(c, v.Index, b, ub); decided {
+				return ok
 			}
 		}
 		return false
@@ -205,6 +221,35 @@ func (a *boundAn) bounded(v ssa.Value, b *ssa.BasicBlock, extra []condFact, ub b
 		return true
 	}
 	return false
+}
+
+// calleeResultBounded summarises a repository callee: result k is bounded when every return hands out a bounded value,
+// assuming of the callee's parameters exactly what holds for the arguments at this call site.
+func (a *boundAn) calleeResultBounded(c *ssa.Call, k int, b *ssa.BasicBlock, ub bool) (bool, bool) {
+	callee := calleeOf(&c.Call)
+	if callee == nil || len(callee.Blocks) == 0 || callee.Pkg == nil || !strings.HasPrefix(callee.Pkg.Pkg.Path(), modPath) || a.depth >= 3 {
+		return false, false
+	}
+	if len(callee.Params) != len(c.Call.Args) {
+		return false, false
+	}
+	sub := &boundAn{busy: map[bkey]bool{}, variadicNonEmpty: a.variadicNonEmpty, assumeUB: map[*ssa.Parameter]bool{}, assumeLB: map[*ssa.Parameter]bool{}, depth: a.depth + 1}
+	for i, prm := range callee.Params {
+		if bt, ok := prm.Type().Underlying().(*types.Basic); !ok || bt.Info()&types.IsInteger == 0 {
+			continue
+		}
+		sub.assumeUB[prm] = a.bounded(c.Call.Args[i], b, nil, true)
+		sub.assumeLB[prm] = a.bounded(c.Call.Args[i], b, nil, false)
+	}
+	for _, ret := range returnsOf(callee) {
+		if k >= len(ret.Results) {
+			return false, true
+		}
+		if !sub.bounded(ret.Results[k], ret.Block(), nil, ub) {
+			return false, true
+		}
+	}
+	return true, true
 }
 
 func (a *boundAn) describe(v ssa.Value) string {
